@@ -132,7 +132,16 @@ def splitNl : Bytes → List Bytes
       | [] => [[c]]
       | l :: ls => (c :: l) :: ls
 
-def strip (l : Bytes) : Bytes := ((l.dropWhile isWs).reverse.dropWhile isWs).reverse
+/-- `bytes.rstrip()` -/
+def stripEnd : Bytes → Bytes
+  | [] => []
+  | c :: t =>
+    match stripEnd t with
+    | [] => if isWs c then [] else [c]
+    | r => c :: r
+
+/-- `bytes.strip()` -/
+def strip (l : Bytes) : Bytes := stripEnd (l.dropWhile isWs)
 
 /-- one line of the `_las` loop: cut at `#`, strip -/
 def lasLine (l : Bytes) : Bytes := strip (l.takeWhile (· != 35))
